@@ -40,3 +40,20 @@ func vExists(lo, hi int, f func(int) bool) bool {
 	}
 	return false
 }
+
+// bigc denotes the integer written in decimal in s. It exists for constants
+// that do not fit Go's integer types; contracts using it are math-only (the
+// verifier gives it its mathematical meaning; when executed it saturates).
+func bigc(s string) int {
+	v := 0
+	for i := 0; i < len(s); i++ {
+		if v > (1<<63-1-9)/10 {
+			return 1<<63 - 1
+		}
+		v = v*10 + int(s[i]-'0')
+	}
+	return v
+}
+
+// mathWrap64 is x mod 2^64 (the verifier treats int as unbounded in ghost code).
+func mathWrap64(x int) uint64 { return uint64(x) }
